@@ -310,6 +310,8 @@ PROPS["C12"] = {
         {"name": "C12TimeoutEnum", "pkg": RS, "test": "TestVerifC12TimeoutEnum", "kind": "enum"},
         {"name": "C12TimeoutRandom", "pkg": RS, "test": "TestVerifC12TimeoutRandom", "kind": "rapid",
          "checks": {"quick": 10000, "thorough": 200000}, "shards": {"quick": 2, "thorough": 8}},
+        # TLS / client-certificate aspect with real handshakes over HTTP/1.1, HTTP/2 and HTTP/3
+        {"name": "C12TLS", "pkg": RS, "test": "TestVerifC12TLS", "kind": "enum", "timeout": 600},
         {"name": "C12BlackBox", "pkg": RS, "test": "TestVerifC12BlackBox", "kind": "rapid",
          "checks": {"quick": 1500, "thorough": 20000}, "shards": {"quick": 2, "thorough": 8}},
     ],
